@@ -57,8 +57,10 @@ type Peer struct {
 	werr     error
 	wdone    chan struct{}
 
-	nextTag uint32
-	frames  int64
+	nextTag  uint32
+	frames   int64
+	quit     chan struct{}
+	quitOnce sync.Once
 }
 
 // Options tune how the server side sees the connection.
@@ -80,7 +82,7 @@ func New(srv *p9.Server, o *Options) *Peer {
 	}
 	p := &Peer{C: c, HandleDone: make(chan struct{}), ReaderDone: make(chan struct{}),
 		notify: make(chan struct{}, 1), outstanding: map[uint16][]uint8{},
-		wq: make(chan []byte, 4096), wdone: make(chan struct{})}
+		wq: make(chan []byte, 4096), wdone: make(chan struct{}), quit: make(chan struct{})}
 	var r io.ReadCloser = s
 	var w io.WriteCloser = s
 	if o != nil && o.WrapReader != nil {
@@ -101,7 +103,13 @@ func New(srv *p9.Server, o *Options) *Peer {
 
 func (p *Peer) writer() {
 	defer close(p.wdone)
-	for b := range p.wq {
+	for {
+		var b []byte
+		select {
+		case b = <-p.wq:
+		case <-p.quit:
+			return
+		}
 		if p.werr == nil {
 			n, err := p.C.Write(b)
 			atomic.AddInt64(&p.written, int64(n))
@@ -251,7 +259,11 @@ func (p *Peer) Frames() int64 { return atomic.LoadInt64(&p.frames) }
 // SendRaw queues bytes that are not accounted as a request.
 func (p *Peer) SendRaw(b []byte) {
 	atomic.AddInt64(&p.wpending, 1)
-	p.wq <- b
+	select {
+	case p.wq <- b:
+	case <-p.quit:
+		atomic.AddInt64(&p.wpending, -1)
+	}
 }
 
 // SendFrame queues one request frame and accounts it as outstanding.
@@ -483,14 +495,6 @@ func (p *Peer) Version(msize uint32, v string) Result {
 func (p *Peer) Close() (quiesce.Outcome, []quiesce.G) {
 	p.C.Close()
 	out, dump := quiesce.Await(p.HandleDone, Watchdog)
-	// let the writer drain
-	select {
-	case <-p.wdone:
-	default:
-		func() {
-			defer func() { recover() }()
-			close(p.wq)
-		}()
-	}
+	p.quitOnce.Do(func() { close(p.quit) })
 	return out, dump
 }
